@@ -256,6 +256,28 @@ func c17Tables(c *Ctx, p *Prog, m *Model) {
 			}
 		}
 		r.Check(ok, "R17.2", "Level.UnmarshalText", p.FuncPos(ut), "parses the text and stores the level", "UnmarshalText does not store ParseLevel(text) into the receiver")
+		// success means "parsed and stored": every return of a nil error is dominated by the store of the parsed level
+		var storeBlk *ssa.BasicBlock
+		for _, b := range ut.Blocks {
+			for _, in := range b.Instrs {
+				if st, isS := in.(*ssa.Store); isS && st.Addr == ssa.Value(ut.Params[0]) {
+					storeBlk = b
+				}
+			}
+		}
+		if rets, _ := exitBlocks(ut); storeBlk != nil {
+			var early []string
+			for _, rb := range rets {
+				ret := rb.Instrs[len(rb.Instrs)-1].(*ssa.Return)
+				if len(ret.Results) != 1 {
+					continue
+				}
+				if k, isC := ret.Results[0].(*ssa.Const); isC && k.IsNil() && !storeBlk.Dominates(rb) {
+					early = append(early, p.Pos(instrPos(ret)))
+				}
+			}
+			r.Check(len(early) == 0, "R17.2", "Level.UnmarshalText:success-stores", p.FuncPos(ut), "every nil-error return follows the store of the parsed level", "UnmarshalText reports success without having parsed and stored anything (return at "+strings.Join(early, ", ")+"): for such a text the receiver keeps whatever level it held, so a registered title of that form does not unmarshal to its level")
+		}
 	}
 }
 
